@@ -293,6 +293,10 @@ def labels_of(f, lb):
         return [("lit", "|".join(alts))]
     if len(lb) == 1 and lb[0] in [p[1] for p in f.params]:
         return [("param", lb[0])]
+    if "?" in lb and ":" in lb:                    # cond ? "A" : "B"
+        lits = [unq(x) for x in lb if x.startswith('"')]
+        if len(lits) >= 2:
+            return [("lit", "|".join(sorted(set(lits))))]
     return None
 
 
